@@ -282,8 +282,40 @@ func registry() []*propertySpec {
 	ps = append(ps, graphProperties()...)
 	ps = append(ps, appProperties()...)
 	ps = append(ps, parseProperties()...)
+	for _, p := range ps {
+		if sup := supporting[p.ID]; len(sup.rules) > 0 {
+			p.Rules = append(p.Rules, sup.rules...)
+			p.Explanation += " Supporting rules, shared with the sibling property whose subject they are and necessary for this one as well: " + sup.why
+		}
+	}
 	sort.Slice(ps, func(i, j int) bool { return ps[i].ID < ps[j].ID })
 	return ps
+}
+
+// supporting lists, per property, rules that are written for a sibling property but state a necessary condition of this
+// one too: the same rule object, run again under this property's name, so that a change which breaks this property through
+// the sibling's subject (a digest that no longer covers the content breaks "skipped means unchanged") is reported by this
+// property's own check and not only by the sibling's.
+var supporting = map[string]struct {
+	rules []func(*Ctx) *rule
+	why   string
+}{
+	"C01": {[]func(*Ctx) *rule{ruleHS2, ruleHS3, ruleHS5, ruleHE1, ruleGL1, ruleGL2, ruleGL3, ruleGL4},
+		"the digest compared by CP1 stands for 'paths and contents' only if every listed file's whole content and path reach it (HS2, HS3, HS5), a failed hashing stops the run (HE1), and every file matching a glob dependency is in the hashed list (GL1-GL4)."},
+	"C02": {[]func(*Ctx) *rule{ruleHS1, ruleHS2, ruleHS5, ruleGL3, ruleTK5},
+		"an unchanged input set is only skipped if it hashes to the recorded digest again: the digest must not depend on arrival order (HS1) or on anything but path and content (HS2, HS5), the expansion root and pattern must be the same every time (GL3), and a plain file must not be taken for a pattern that matches nothing (TK5)."},
+	"C05": {[]func(*Ctx) *rule{ruleTK5},
+		"which strings are globs at all (TK5)."},
+	"C09": {[]func(*Ctx) *rule{ruleCP1, ruleCP10},
+		"a failed task is 'not treated as up to date by later runs' because its digest is not recorded (CP8), the old one is only restored (CP10), and 'skipped' requires digest equality (CP1)."},
+	"C12": {[]func(*Ctx) *rule{ruleGL1, ruleGL3, ruleTK5, ruleAB2, ruleFD4},
+		"'files matching output globs' are those the shared expansion finds (GL1, GL3, TK5); 'the spokfile' and 'the directory containing it' are what discovery settled (AB2, FD4)."},
+	"C14": {[]func(*Ctx) *rule{ruleCP1, ruleCP3("CP3L"), ruleCP6, ruleGL4},
+		"'a forced run does not damage the cache' is C01 after a forced run: the digest a forced run records must be the one of the inputs its commands ran on (CP1, CP3L), computed over all inputs, globs expanded (CP6, GL4)."},
+	"C19": {[]func(*Ctx) *rule{ruleAB1, ruleAB2, ruleFD4, ruleGR5, ruleEN4},
+		"'its cache directory next to the spokfile' is the project root handed to file.New (AB1, AB2, FD4); '--fmt rewrites only when the spokfile loads' needs file.New to fail on what does not load (GR5 duplicate tasks, EN4 failing builtins)."},
+	"C20": {[]func(*Ctx) *rule{ruleGR8, ruleEN3, ruleTK4},
+		"'a single JSON document' needs one SpokFile.Run per invocation (GR8); 'its interpolated text' is the text/template expansion of each command, one entry per command (EN3, TK4)."},
 }
 
 func join(ss []string) string { return strings.Join(ss, ", ") }
